@@ -141,7 +141,10 @@ def scenarios(ctx):
     # two layers and layer limits
     for ce, layers_fn, lim in ((b"gzip, deflate", (gz, raw_deflate), 2), (b"deflate, gzip", (raw_deflate, gz), 2), (b"gzip,gzip", (gz, gz), 2),
                                (b"gzip, gzip, gzip", (gz, gz, gz), 2), (b"gzip, deflate", (gz, raw_deflate), 1), (b"gzip,  deflate", (gz, raw_deflate), 3),
-                               (b"identity, gzip", (gz,), 2), (b"gzip, lzma", (gz,), 2), (b"none", (), 2), (b"gzip, deflate, gzip, deflate", (gz, raw_deflate, gz, raw_deflate), 0)):
+                               (b"identity, gzip", (gz,), 2), (b"gzip, lzma", (gz,), 2), (b"none", (), 2), (b"gzip, deflate, gzip, deflate", (gz, raw_deflate, gz, raw_deflate), 0),
+                               # separators before a token (S40, repaired: the cursor used to re-split the token that followed them)
+                               (b",gzip, deflate", (gz, raw_deflate), 3), (b"gzip , deflate", (gz, raw_deflate), 3), (b",, ,gzip", (gz,), 2),
+                               (b"gzip ,,  , deflate , none", (gz, raw_deflate), 0)):
         pl = b"layered payload " * 50
         body = pl
         for f in reversed(layers_fn):     # the LAST listed coding was applied last... the library decodes in header order
